@@ -314,3 +314,12 @@ Definition holds_attempt (rc : resync_case) (a : attempt) : bool :=
   end.
 
 Definition holds_resync (rc : resync_case) : bool := forallb (holds_attempt rc) (rs_attempts rc).
+
+(* ====================================================================================== *)
+(* The multi stream: several plugin ends register one after the other on ONE adaptation.Adaptation,
+   each against the state the runtime holds then.  A case is the list of these registrations, each
+   recorded like a single one.  The model of each is the model of a single registration: synchronize
+   starts from the whole state (podsPerMsg = len(pods), ctrsPerMsg = len(containers)) and reads nothing
+   an earlier synchronisation on the same runtime could have left behind (C09_sync_independent). *)
+Definition corr_multi (l : list sync_case) : bool := forallb corr_sync l.
+Definition holds_multi (l : list sync_case) : bool := forallb holds_sync l.
